@@ -42,8 +42,10 @@ LastWith(cs, name, i) ==      \* greatest position in 2..i whose candle carries 
   ELSE LastWith(cs, name, i - 1)
 FindCalcIndex(cs, name) ==
   IF Len(cs) = 0 \/ ~(KVHas(cs[1].ind, name) \/ KVHas(cs[1].sub, name)) THEN 1
-  \* (only the first candle carries it: resume after it)
-  ELSE LET k == LastWith(cs, name, Len(cs)) IN IF k = 0 THEN 2 ELSE k + 1
+  \* (only the first candle carries it: resume after it; as shipped the scan fell back to the first
+  \*  candle, which destroyed the helper series of a composite after a trim -- deviation resume_zero)
+  ELSE LET k == LastWith(cs, name, Len(cs))
+       IN IF k = 0 THEN (IF "resume_zero" \in Dev THEN 1 ELSE 2) ELSE k + 1
 
 \* one pass over the series of an indicator at position i: every series that is due is given
 \* its layer value computed from what is stored so far.  st = [cs, work]
